@@ -19,7 +19,8 @@ RULE = (
     "GetQuantityType(unit), GetDefaultCategory, IterCategories, every CategoryInfo field, GetValidUnits, and the "
     "invariants: one quantity type per symbol, identity base first once a base was registered, category type exists, "
     "default/valid units within the type, default value within limits, Scalar(category) builds and IsValid(), "
-    "Scalar(1,u,c) builds for every unit and category of its type; a rejected call leaves the full snapshot identical. "
+    "Scalar(1,u,c) builds for every unit and category of its type and holds the category as registered now, as does the "
+    "unit-only form ObtainQuantity(u); a rejected call leaves the full snapshot identical. "
     "(c) static sweep of the three shipped databases with the same invariants. Non-trivial = history with a rejection, "
     "an override or a unit registered before its base; key = the history."
 )
@@ -244,6 +245,22 @@ def observe(db, m):
             return ("quantity_type_of_unit", u, db.GetQuantityType(u), ui["qt"])
         if db.GetDefaultCategory(u) != m_default_category(m, u):
             return ("default_category", u, db.GetDefaultCategory(u), m_default_category(m, u))
+    # the forms that leave the category out resolve it through the unit; what they return reflects the category as it
+    # is registered now (not as it was when the unit was first asked for)
+    from barril.units import ObtainQuantity
+
+    for u, ui in m.units.items():
+        dc = m_default_category(m, u)
+        if dc is None or dc not in m.cats:
+            continue
+        try:
+            q = ObtainQuantity(u)
+            got = ("ok", q.GetCategory(), q.GetQuantityType(), q.GetCategoryInfo() is db.GetCategoryInfo(dc))
+        except UnitsError as e:
+            got = ("raises",)
+        want = ("ok", dc, ui["qt"], True) if m.cats[dc]["qt"] == ui["qt"] else ("raises",)
+        if got != want:
+            return ("INV unit-only quantity does not reflect the registered category", u, got, want)
     if list(db.IterCategories()) != list(m.cats):
         return ("categories", list(db.IterCategories()), list(m.cats))
     for c, ci in m.cats.items():
@@ -281,6 +298,8 @@ def observe(db, m):
         for u in m.qt[ci["qt"]]:
             try:
                 s = Scalar(1.0, u, c)
+                if s.GetQuantity().GetCategoryInfo() is not info:
+                    return ("INV Scalar(1, unit, category) holds a stale category definition", u, c)
                 s.GetValidUnits()
             except Exception as e:
                 return ("INV Scalar(1, unit, category) cannot be built or used", u, c, type(e).__name__, str(e)[:80])
